@@ -359,6 +359,9 @@ pub struct Points {
     /// (pubkey, msg32, sig64) valid for secp256k1 / secp256r1
     pub k1: Vec<(Vec<u8>, Vec<u8>, Vec<u8>)>,
     pub r1: Vec<(Vec<u8>, Vec<u8>, Vec<u8>)>,
+    /// blobs of the right size that are NOT valid points
+    pub bad_g1: Vec<Vec<u8>>,
+    pub bad_g2: Vec<Vec<u8>>,
 }
 
 pub fn path_to_item(k: usize) -> i128 {
@@ -427,11 +430,11 @@ impl<'a> ProgGen<'a> {
             }
             Ty::Nil => self.f.nil(),
             Ty::G1 => {
-                let p = self.r.pick(&self.points.g1).clone();
+                let p = if self.r.chance(1, 8) { self.r.pick(&self.points.bad_g1) } else { self.r.pick(&self.points.g1) }.clone();
                 self.f.atom(&p)
             }
             Ty::G2 => {
-                let p = self.r.pick(&self.points.g2).clone();
+                let p = if self.r.chance(1, 8) { self.r.pick(&self.points.bad_g2) } else { self.r.pick(&self.points.g2) }.clone();
                 self.f.atom(&p)
             }
             Ty::List => {
@@ -1127,11 +1130,25 @@ impl<'a> ProgGen<'a> {
             .collect();
         let four_byte = !self.cfg.flags.contains(ClvmFlags::ENABLE_SECP_OPS) || self.r.chance(1, 2);
         if four_byte {
-            let code: [u8; 4] = if k1 {
+            let mut code: [u8; 4] = if k1 {
                 [0x13, 0xd6, 0x1f, 0x00]
             } else {
                 [0x1c, 0x3a, 0x8f, 0x00]
             };
+            // the neighbourhood of the assigned opcodes: same multiplier, other
+            // cost-function / ignored bits -- these are plain unknown operators
+            if self.cfg.unknown_ops && self.r.chance(1, 4) {
+                code[3] = match self.r.below(5) {
+                    0 => 0x40,
+                    1 => 0x80,
+                    2 => 0xc0,
+                    3 => self.r.range(1, 0x3f) as u8,
+                    _ => self.r.u8(),
+                };
+                if self.r.chance(1, 6) {
+                    code[2] ^= 1;
+                }
+            }
             self.op(&code, &a)
         } else {
             self.op1(if k1 { 64 } else { 65 }, &a)
